@@ -118,10 +118,14 @@ Boundary(C, r) == Cardinality(MetsOfRxn(C, r)) = 1
 \* an "e" metabolite so that the external compartment is found by name
 HasExt(C) == \E m \in C.mets : m \in ExtMets
 PlainId(r) == r \in {"r1", "r2", "r3", "r4", "r5", "r6"}     \* ids without EX_/DM_/SK_ markers
+\* (find_boundary_types answers with the empty list when the model has no boundary reaction at all; otherwise
+\* it asks every reaction, and the SBO term dominates: an annotated reaction that has gained a second metabolite
+\* still counts)
 IsExchange(C, r) ==
-  \/ C.sbo[r] = "exchange"
-  \/ /\ C.sbo[r] = "none" /\ Boundary(C, r) /\ MetsOfRxn(C, r) \subseteq ExtMets
-     /\ (PlainId(r) \/ r \in {"EX_m3", "EX_m4"})
+  /\ \E b \in C.rxns : Boundary(C, b)
+  /\ \/ C.sbo[r] = "exchange"
+     \/ /\ C.sbo[r] = "none" /\ Boundary(C, r) /\ MetsOfRxn(C, r) \subseteq ExtMets
+        /\ (PlainId(r) \/ r \in {"EX_m3", "EX_m4"})
 Exchanges(C) == {r \in C.rxns : IsExchange(C, r)}
 
 \* canonical form: absent entities carry the defaults (so that states compare by value)
